@@ -197,29 +197,36 @@ impl<'a> Visit<'a> for Collector<'a> {
 }
 
 /// T2: compile an irrefutable closure-parameter pattern into projections of `base`.
-fn compile_pat(p: &syn::Pat, base: &str, out: &mut Vec<String>) -> R<()> {
+/// `by_ref`: the pattern is matched against a reference (default binding mode `ref`): identifiers bind references.
+fn compile_pat(p: &syn::Pat, base: &str, by_ref: bool, out: &mut Vec<String>) -> R<()> {
     match p {
         syn::Pat::Ident(pi) => {
             if pi.by_ref.is_some() || pi.subpat.is_some() {
                 return bail("unsupported closure pattern (ref / @ binding)");
             }
             let m = if pi.mutability.is_some() { "mut " } else { "" };
-            out.push(format!("let {m}{} = {base};", pi.ident));
+            let amp = if by_ref { "&" } else { "" };
+            out.push(format!("let {m}{} = {amp}{base};", pi.ident));
             Ok(())
         }
         syn::Pat::Wild(_) => Ok(()),
-        syn::Pat::Paren(pp) => compile_pat(&pp.pat, base, out),
-        syn::Pat::Type(pt) => compile_pat(&pt.pat, base, out),
-        syn::Pat::Reference(pr) => compile_pat(&pr.pat, &format!("(*{base})"), out),
+        syn::Pat::Paren(pp) => compile_pat(&pp.pat, base, by_ref, out),
+        syn::Pat::Type(pt) => compile_pat(&pt.pat, base, by_ref, out),
+        syn::Pat::Reference(pr) => {
+            if by_ref {
+                return bail("unsupported closure pattern (`&` pattern under a default `ref` binding mode)");
+            }
+            compile_pat(&pr.pat, &format!("(*{base})"), false, out)
+        }
         syn::Pat::Tuple(pt) => {
             for (i, e) in pt.elems.iter().enumerate() {
-                compile_pat(e, &format!("{base}.{i}"), out)?;
+                compile_pat(e, &format!("{base}.{i}"), by_ref, out)?;
             }
             Ok(())
         }
         syn::Pat::TupleStruct(ts) => {
             for (i, e) in ts.elems.iter().enumerate() {
-                compile_pat(e, &format!("{base}.{i}"), out)?;
+                compile_pat(e, &format!("{base}.{i}"), by_ref, out)?;
             }
             Ok(())
         }
@@ -228,7 +235,7 @@ fn compile_pat(p: &syn::Pat, base: &str, out: &mut Vec<String>) -> R<()> {
 }
 
 /// names of the parameters in a directive closure head `|a: T, b: U| -> ...`
-fn head_param_names(head: &str) -> R<Vec<String>> {
+fn head_param_names(head: &str) -> R<Vec<(String, bool)>> {
     let ts = TokenStream::from_str(head).map_err(|e| Bail(format!("closure head `{head}`: {e}")))?;
     let toks: Vec<TokenTree> = ts.into_iter().collect();
     let mut names = Vec::new();
@@ -259,7 +266,10 @@ fn head_param_names(head: &str) -> R<Vec<String>> {
             TokenTree::Punct(p) if p.as_char() == ',' && depth_angle == 0 => expect_name = true,
             TokenTree::Ident(id) if expect_name => {
                 if id != "mut" {
-                    names.push(id.to_string());
+                    // does the declared type start with `&`?  tokens: name ':' '&' ...
+                    let is_ref = matches!((toks.get(i + 1), toks.get(i + 2)),
+                        (Some(TokenTree::Punct(c)), Some(TokenTree::Punct(a))) if c.as_char() == ':' && a.as_char() == '&');
+                    names.push((id.to_string(), is_ref));
                     expect_name = false;
                 }
             }
@@ -663,12 +673,14 @@ fn transform_body(
         edits.push(Edit { start: s, end: e, text: String::new() });
         fired.push(format!("T6 attr@{}", a.start().line));
     }
-    // T5: panic-family macro arguments dropped
+    // T5: panic-family macros: message arguments dropped, and an explicit (labelled) proof obligation
+    // `assert(false)` placed in front, so that an unprovable unreachable!() is reported as a failed assertion
     for m in &col.macros {
         let name = m.path.segments.last().map(|s| s.ident.to_string()).unwrap_or_default();
-        if ["unreachable", "panic", "unimplemented", "todo"].contains(&name.as_str()) && !m.tokens.is_empty() {
-            let (s, e) = range(m.delimiter.span().join());
-            edits.push(Edit { start: s + 1, end: e - 1, text: String::new() });
+        if ["unreachable", "panic", "unimplemented", "todo"].contains(&name.as_str()) {
+            let (s0, _) = range(m.path.span());
+            let (_, e) = range(m.delimiter.span().join());
+            edits.push(Edit { start: s0, end: e, text: format!("({{ proof {{ assert(false); }} {name}!() }})") });
             fired.push(format!("T5 {name}!@{}", m.span().start().line));
         }
     }
@@ -689,6 +701,10 @@ fn transform_body(
                 edits.push(Edit { start: a, end: b, text: this.clone() });
             } else if force_this.is_some() && s == "Self" {
                 edits.push(Edit { start: a, end: b, text: force_this.unwrap_or("Self").to_string() });
+            } else if s == "r#else" {
+                // T15: Verus' SMT encoding breaks on a local named `r#else`; alpha-rename it
+                edits.push(Edit { start: a, end: b, text: "else_vx".into() });
+                fired.push(format!("T15 r#else->else_vx@{}", id.span().start().line));
             } else if s == "exec" {
                 edits.push(Edit { start: a, end: b, text: "r#exec".into() });
                 fired.push(format!("T4 exec@{}", id.span().start().line));
@@ -733,7 +749,7 @@ fn transform_body(
                     ));
                 }
                 let mut lets: Vec<String> = Vec::new();
-                for (p, nm) in c.inputs.iter().zip(&names) {
+                for (p, (nm, ty_is_ref)) in c.inputs.iter().zip(&names) {
                     let mut inner = p;
                     if let syn::Pat::Type(t) = inner {
                         inner = &t.pat;
@@ -748,7 +764,9 @@ fn transform_body(
                             }
                         }
                         other => {
-                            compile_pat(other, nm, &mut lets)?;
+                            // match ergonomics: a non-reference pattern against a `&T` parameter binds by reference
+                            let by_ref = *ty_is_ref && !matches!(other, syn::Pat::Reference(_));
+                            compile_pat(other, nm, by_ref, &mut lets)?;
                             fired.push(format!("T2 closure#{n}@{}", c.span().start().line));
                         }
                     }
